@@ -595,6 +595,9 @@ fn coq_segs(segs: &[Vec<u8>]) -> String { coq_list(segs, |s| cb(s)) }
 fn coq_tagged(segs: &[(u16, Vec<u8>)]) -> String { coq_list(segs, |(c, s)| format!("({},{})", c, cb(s))) }
 
 fn classify(expected: &[Vec<u8>], got: &[Vec<u8>], status: u8) -> Option<&'static str> {
+    let agree = got.iter().zip(expected.iter()).take_while(|(a, b)| a == b).count();
+    // a delivered message that was never sent (at that position) comes first
+    if agree < got.len() && agree < expected.len() { return Some("wrong-message"); }
     match status {
         1 => return Some("decode-error"),
         2 => return Some("blocked"),
@@ -603,10 +606,9 @@ fn classify(expected: &[Vec<u8>], got: &[Vec<u8>], status: u8) -> Option<&'stati
         5 => return Some("panic"),
         _ => {}
     }
-    if got == expected { return None; }
-    if got.len() < expected.len() && got[..] == expected[..got.len()] { return Some("missing"); }
-    if got.len() > expected.len() && got[..expected.len()] == expected[..] { return Some("extra"); }
-    Some("wrong-message")
+    if got.len() < expected.len() { return Some("missing"); }
+    if got.len() > expected.len() { return Some("extra"); }
+    None
 }
 
 fn hexs(v: &[Vec<u8>]) -> String { v.iter().map(|b| hex(b)).collect::<Vec<_>>().join(",") }
